@@ -41,6 +41,15 @@ var nondetPkgs = map[string]bool{"math/rand": true, "math/rand/v2": true, "crypt
 	// libraries that run the caller's closures on other goroutines: which closure finishes (or fails) first depends on scheduling
 	"golang.org/x/sync/errgroup": true, "golang.org/x/sync/singleflight": true, "golang.org/x/sync/semaphore": true}
 
+// methods of time.Time whose result depends on the location of the value (time.Unix, time.Now and parsed local times carry the
+// machine's zone; block times from the header are UTC, but the scan cannot tell them apart unless .UTC() is applied first)
+var zoneDependent = map[string]bool{
+	"(time.Time).Format": true, "(time.Time).AppendFormat": true, "(time.Time).String": true, "(time.Time).GoString": true,
+	"(time.Time).Local": true, "(time.Time).Zone": true, "(time.Time).Location": true, "(time.Time).MarshalJSON": true, "(time.Time).MarshalText": true,
+	"(time.Time).Date": true, "(time.Time).Clock": true, "(time.Time).Year": true, "(time.Time).Month": true, "(time.Time).Day": true, "(time.Time).Hour": true,
+	"(time.Time).Minute": true, "(time.Time).Weekday": true, "(time.Time).YearDay": true, "(time.Time).ISOWeek": true, "time.LoadLocation": true,
+}
+
 // concurrency / timer entry points of the standard library whose effect depends on scheduling or on the wall clock
 var nondetFuncs = map[string]bool{
 	"(*sync.WaitGroup).Go": true, "(*sync.WaitGroup).Add": true, "(*sync.WaitGroup).Wait": true, "(*sync.Cond).Wait": true, "(*sync.Cond).Signal": true, "(*sync.Cond).Broadcast": true,
@@ -135,6 +144,21 @@ func runDiscipline(s *Session, prop string, verified map[string]bool) *Disciplin
 								bad = append(bad, "formats a pointer with %p in "+f.String()+" at "+s.L.Fset.Position(in.Pos()).String())
 							}
 						}
+					}
+					if zoneDependent[f.String()] {
+						// rendering / splitting a time in its location: time.Unix(..) and friends are in the machine's local zone
+						fromUTC := false
+						if len(i.Common().Args) > 0 {
+							if c, ok := i.Common().Args[0].(*ssa.Call); ok {
+								if cf := c.Call.StaticCallee(); cf != nil && cf.String() == "(time.Time).UTC" {
+									fromUTC = true
+								}
+							}
+						}
+						if !fromUTC {
+							bad = append(bad, "calls "+f.String()+" on a time that is not explicitly UTC (the result depends on the machine's time zone) at "+s.L.Fset.Position(in.Pos()).String())
+						}
+						continue
 					}
 					if fo := f.Origin(); fo != nil && nondetFuncs[fo.String()] {
 						bad = append(bad, "calls "+fo.String()+" at "+s.L.Fset.Position(in.Pos()).String())
